@@ -331,6 +331,17 @@ class Target:
                 ob['canary'] = True
             if st == 'FAILURE' and 'trace' in r:
                 ob['trace'] = summarize_trace(r['trace'])
+            if st == 'FAILURE':
+                m = re.fullmatch(r'(\w+)\.postcondition\.(\d+)', name)
+                if m:
+                    # say WHICH clause: the text of the k-th __CPROVER_ensures of the function's contract macro
+                    try:
+                        cl = contract_clauses(os.path.join(VERIF, self.prelude), m.group(1))
+                        k = int(m.group(2)) - 1
+                        if 0 <= k < len(cl):
+                            ob['description'] = desc + ' -- ensures ' + re.sub(r'\s+', ' ', cl[k])[:400]
+                    except Exception:
+                        pass
             res['obligations'].append(ob)
         nloops = sum(f['loops'] for f in self.info['functions'] if f['c_name'] not in self.replace)
         want = self.loops if self.loops is not None else nloops
@@ -339,6 +350,87 @@ class Target:
             res.update(status='undecided', reason=f'{steps} loop-invariant-step obligations for {want} loops: a loop contract was dropped')
         res['wall'] = time.time() - t0
         return res
+
+
+def _macro_table(path, seen=None):
+    """#define table of a prelude and of the headers it includes with "..." (same directory or models/)"""
+    seen = seen if seen is not None else set()
+    if path in seen or not os.path.exists(path):
+        return {}
+    seen.add(path)
+    text = open(path).read().replace('\\\n', ' ')
+    text = re.sub(r'/\*.*?\*/', ' ', text, flags=re.S)
+    tab = {}
+    for inc in re.findall(r'^\s*#\s*include\s+"([^"]+)"', text, re.M):
+        for d in (os.path.dirname(path), os.path.join(VERIF, 'models')):
+            tab.update(_macro_table(os.path.join(d, inc), seen))
+    for m in re.finditer(r'^\s*#\s*define\s+(\w+)(\(([^)]*)\))?[ \t]+(.*)$', text, re.M):
+        params = [x.strip() for x in m.group(3).split(',')] if m.group(2) else None
+        tab[m.group(1)] = (params, m.group(4).strip())
+    return tab
+
+
+def _balanced(text, i):
+    """text[i] == '(' : index just after the matching ')' """
+    depth = 0
+    for j in range(i, len(text)):
+        if text[j] == '(':
+            depth += 1
+        elif text[j] == ')':
+            depth -= 1
+            if depth == 0:
+                return j + 1
+    return len(text)
+
+
+def contract_clauses(prelude, cname, kind='__CPROVER_ensures'):
+    """texts of the `kind` clauses of NV_CONTRACT_<cname>, in order.  Only the macros that structure the contract (whose body
+    contains a __CPROVER_ clause) are expanded; predicate macros stay as written, so the text is the one the spec author wrote"""
+    tab = _macro_table(prelude)
+    clause = re.compile(r'__CPROVER_(requires|ensures|assigns|loop_invariant|decreases)\b')
+    structural = {k for k, (_, body) in tab.items() if clause.search(body)}
+    for _ in range(6):   # macros that only combine contract macros
+        structural |= {k for k, (_, body) in tab.items() if any(w in structural for w in re.findall(r'\w+', body))}
+    text = 'NV_CONTRACT_' + cname
+    for _ in range(12):
+        changed = False
+        for name in sorted(structural, key=len, reverse=True):
+            params, body = tab[name]
+            for m in list(re.finditer(r'\b' + name + r'\b', text))[::-1]:
+                if params is None:
+                    text = text[:m.start()] + ' ' + body + ' ' + text[m.end():]
+                    changed = True
+                elif text[m.end():m.end() + 1] == '(':
+                    e = _balanced(text, m.end())
+                    args = [a.strip() for a in split_args(text[m.end() + 1:e - 1])]
+                    b = body
+                    for pn, av in zip(params, args):
+                        b = re.sub(r'\b' + re.escape(pn) + r'\b', av.replace('\\', '\\\\'), b)
+                    text = text[:m.start()] + ' ' + b + ' ' + text[e:]
+                    changed = True
+        if not changed:
+            break
+    out = []
+    for m in re.finditer(re.escape(kind) + r'\s*\(', text):
+        e = _balanced(text, m.end() - 1)
+        out.append(text[m.end():e - 1].strip())
+    return out
+
+
+def split_args(s):
+    out, depth, cur = [], 0, ''
+    for ch in s:
+        if ch == '(':
+            depth += 1
+        if ch == ')':
+            depth -= 1
+        if ch == ',' and depth == 0:
+            out.append(cur)
+            cur = ''
+        else:
+            cur += ch
+    out.append(cur)
+    return out
 
 
 def summarize_trace(trace):
